@@ -114,7 +114,7 @@ impl Real {
     /// a fresh store; nothing created yet
     pub fn blank(backend: Backend, small_buckets: bool) -> Real {
         let mem = Arc::new(InMemory::new());
-        let (vs, ctl) = VStore::wrap(mem.clone());
+        let (vs, ctl) = VStore::wrap(mem.clone(), |op, path| model_event(op, path).is_some());
         Real { backend, mem, base: Arc::new(vs), ctl, db: None, c: None, last_real_ms: 0, log_pos: 0, small_buckets, want_extra: false, same_process_reopens: 0 }
     }
 
@@ -223,12 +223,23 @@ impl Real {
     /// executes one line; the canonical answer
     pub async fn exec(&mut self, line: &Line) -> String {
         match line {
-            Line::Arm(k, _, n_real) => {
+            Line::Arm(k, km, b) => {
                 self.ctl.disarm();
-                match k {
-                    Kind::Crash => self.ctl.crash_after(*n_real),
-                    Kind::Fail => self.ctl.fail_after(*n_real),
-                    Kind::Unknown => self.ctl.unknown_after(*n_real),
+                if self.backend == Backend::Mem {
+                    // plain backend: positioned on the mutations the model knows, `b` = further abstracted ones let through
+                    let kind = match k {
+                        Kind::Crash => ArmKind::Crash,
+                        Kind::Fail => ArmKind::Fail,
+                        Kind::Unknown => ArmKind::Unknown,
+                    };
+                    self.ctl.arm_model(kind, *km, *b);
+                } else {
+                    // wrapper backends: `b` counts raw backend mutations
+                    match k {
+                        Kind::Crash => self.ctl.crash_after(*b),
+                        Kind::Fail => self.ctl.fail_after(*b),
+                        Kind::Unknown => self.ctl.unknown_after(*b),
+                    }
                 }
                 return "ok".into();
             }
